@@ -1,5 +1,7 @@
 import JoblibProofs.Lemmas.Tracker
 import JoblibProofs.Lemmas.TrackerClient
+import JoblibProofs.Lemmas.TrackerSignals
+import JoblibModel.TrackerLag
 /-!
 # C20 — tracked temporary resources are deleted exactly when their last user is gone
 
@@ -502,5 +504,93 @@ example : (runOps cfgPinned State.init
 example : (runOps cfgPinned State.init [.configure 0]).sent.reverse =
     [C20.reqLine .register .folder (FolderKey.mk 0 0).name, C20.reqLine .register .folder (FolderKey.mk 0 1).name] := by
   decide +kernel
+
+/-! ### signals: the tracker outlives ^C and `killall python` at every phase of its life
+
+Model: `JoblibModel.TrackerSignals` (mask, disposition, pending bit per signal; the head of `main` as the code has it). -/
+section Signals
+open JoblibModel.TrackerSignals
+
+/-- The tracker outlives SIGINT and SIGTERM at every phase of its life. Spawned by `ensure_running` (both signals
+blocked; `pi`/`pt`: one already pending when `main` starts), with any number of further arrivals before the first
+statement of `main` (`a0`), between `signal(SIGINT, SIG_IGN)`, `signal(SIGTERM, SIG_IGN)` and
+`pthread_sigmask(SIG_UNBLOCK, …)` (`a1`, `a2`), and during the command loop and the EOF clean-up (`a3`): the tracker
+is alive at the end and ignores both signals. (So what is registered is still deleted when the last client is gone:
+`eof_deletes_rest_folders_last`, `eventually_deleted`.) -/
+theorem start_never_loses_to_a_pending_signal (pi pt : Bool) (a0 a1 a2 a3 : List Sig) :
+    (life pi pt a0 a1 a2 a3).alive = true ∧ (life pi pt a0 a1 a2 a3).int.ignored = true
+      ∧ (life pi pt a0 a1 a2 a3).term.ignored = true := by
+  have h0 : sigSafe (launched pi pt) = true := by simp [sigSafe, launched]
+  -- arrivals before the first statement: both stay in the mask
+  have s1 := sigRun_arrivals a0 _ h0
+  -- signal(SIGINT, SIG_IGN)
+  have k2 := sigStep_keeps _ (.ignore .int) (by simp) s1.1
+  have i2 := sigStep_ignore (sigRun (launched pi pt) (arrivals a0)) .int (sigSafe_alive s1.1)
+  have s3 := sigRun_arrivals a1 _ k2.1
+  -- signal(SIGTERM, SIG_IGN)
+  have k4 := sigStep_keeps _ (.ignore .term) (by simp) s3.1
+  have i4 := sigStep_ignore (sigRun (sigStep (sigRun (launched pi pt) (arrivals a0)) (.ignore .int)) (arrivals a1)) .term
+    (sigSafe_alive s3.1)
+  have s5 := sigRun_arrivals a2 _ k4.1
+  -- both are ignored now
+  have hi5 := s5.2.2.2.1 (k4.2.2.2.1 (s3.2.2.2.1 i2))
+  have ht5 := s5.2.2.2.2 i4
+  -- pthread_sigmask(SIG_UNBLOCK, …): nothing that is pending is delivered with the start-up disposition
+  have u6 := sigStep_unblock _ (sigSafe_alive s5.1) hi5 ht5
+  -- the rest of the tracker's life
+  have s7 := sigRun_arrivals a3 _ (sigSafe_of_ignored u6.1 u6.2.1 u6.2.2)
+  simp only [life, schedule, sigRun_append, sigRun_cons]
+  exact ⟨sigSafe_alive s7.1, s7.2.2.2.1 u6.2.1, s7.2.2.2.2 u6.2.2⟩
+
+/-- The order of the two steps matters: unblocking BEFORE ignoring loses the tracker to a SIGTERM or SIGINT that was
+pending on the launcher's mask, or that arrives between the two steps. -/
+theorem unblock_before_ignore_counterexample :
+    (sigRun (launched false true) [.unblockAll, .ignore .int, .ignore .term]).alive = false
+      ∧ (sigRun (launched true false) [.unblockAll, .ignore .int, .ignore .term]).alive = false
+      ∧ (sigRun (launched false false) [.unblockAll, .arrive .term, .ignore .int, .ignore .term]).alive = false := by decide
+
+/-- Why the launcher blocks the signals around the spawn (bpo-33613): a tracker spawned without the mask dies of a
+SIGTERM arriving before `main`'s first statement; with the mask the same signal is survived. -/
+theorem launcher_mask_is_needed :
+    (sigRun unprotected (.arrive .term :: mainStart)).alive = false
+      ∧ (sigRun (launched false false) (.arrive .term :: mainStart)).alive = true := by decide
+
+example : (life true true [.int, .term] [.term] [.int, .int] [.term, .int, .term]).alive = true := by decide
+end Signals
+
+/-! ### the pipe is asynchronous: the tracker may lag behind the clients (finding F60)
+
+`never_deleted_while_held` is about the SYNCHRONOUS composition (`TrackerClient.send` = the write and the tracker's
+`step` at once). With a FIFO between clients and tracker (`JoblibModel.TrackerLag`: the tracker consumes at arbitrary
+later points, `os.path.exists` / `os.listdir` / the worker's `open` see the disk as the tracker has left it so far) the
+statement is FALSE even for the repaired manager: `tracker_lag_counterexample`. Hypothesis under which the synchronous
+theorems speak about the real system: the tracker has read every line written before the next step of any client
+that looks at the disk — `Op.catchUp` between any two client steps (`lag_with_caught_up_tracker_is_synchronous`);
+the F60 schedule violates exactly this (the worker's `MAYBE_UNLINK` is still in the pipe when the reducer of the next
+call runs `os.path.exists`). The general safety statement for `runSync` on this cut-down model is not proved here
+(it is `never_deleted_while_held` on the full model); only the F60 client program is evaluated in both. -/
+section Lag
+open JoblibModel.TrackerLag
+
+/-- F60: one unmanaged `Parallel` object called twice with the same array. With the tracker lagging behind the
+worker's `MAYBE_UNLINK` of call 1, call 2's reducer still sees the dump (`os.path.exists`), skips the dump and only
+registers the task; the tracker then reaches count 0 and unlinks the file while the pickled task of call 2 needs it
+(`bad = [1]`), the worker gets `FileNotFoundError` (`loadfail = 1`). The same client steps composed synchronously:
+nothing deleted in use, no failed load, the dump is on disk for the second task. -/
+theorem tracker_lag_counterexample :
+    (runL LState.init f60Lagging).bad = [1] ∧ (runL LState.init f60Lagging).loadfail = 1
+      ∧ (runL LState.init f60Lagging).files = []
+      ∧ (runSync LState.init f60Client).bad = [] ∧ (runSync LState.init f60Client).loadfail = 0
+      ∧ (runSync LState.init f60Client).files = [1] := by decide +kernel
+
+/-- The precise synchrony hypothesis: a lagging system in which the tracker catches up after every client step IS the
+synchronous composition (for every start state and every client program). -/
+theorem lag_with_caught_up_tracker_is_synchronous (s : LState) (ops : List JoblibModel.TrackerLag.Op) :
+    runL s (ops.flatMap (fun op => [op, JoblibModel.TrackerLag.Op.catchUp])) = runSync s ops := by
+  induction ops generalizing s with
+  | nil => rfl
+  | cons op r ih => simpa [runL, runSync, List.flatMap_cons, stepL] using ih (drain (stepL s op))
+
+end Lag
 
 end C20
